@@ -1,6 +1,7 @@
 """C06 - a JSON object behaves as an insertion-ordered map under any operation history."""
 import os
 import vlib
+from checks import world
 
 FINISH = dict(level="model_checking",
               rule="TLC: LinkHash (Mech: slots, tombstones, order list, resize; prescribed colliding hash) refines "
@@ -87,6 +88,9 @@ def run(ck):
         deaths = vlib.run_executions(exe, lambda st: ["c06", "drive", lo + st, hi, nops], hi - lo, tp)
         vlib.conformance(ck, "V:churn(process %d)" % c, "TraceOrderedMap", "trace.cfg", tp, deaths, diag_of,
                          min_events=hi - lo)
+    # objects that were not built member by member: parsed (repeated names included), copied, patched, reached through pointers -
+    # the world client's dumps walk them with all four iteration forms (composed model World.tla, model-checked under C05)
+    world.run_world(ck, exe, 2000 if thorough else 150, first_exec=400000, mc=False)
 
 
 def replay(path):
@@ -96,7 +100,7 @@ def replay(path):
     tp = path + ".ndjson"
     with open(tp, "w") as f:
         f.write("\n".join(x for x in d["trace"] if x.startswith("{")) + "\n")
-    r = vlib.validate_traces("TraceOrderedMap", "trace.cfg", [tp])[0]
+    r = vlib.validate_traces("TraceWorld" if d["diagnosis"].get("world") else "TraceOrderedMap", "trace.cfg", [tp])[0]
     os.unlink(tp)
     print("trace %s" % ("accepted" if r["accepted"] else "rejected at line(s) %s" % r["lines"]))
     return 0 if r["accepted"] else 1
